@@ -612,8 +612,59 @@ func timedScenario(p timedProg) *mc.Scenario {
 		}}
 }
 
+// mgrOptionsScenario: timeouts given to one manager do not reach another one (all ordered pairs of
+// {default, read 5 s / write 2 s, read 7 s} managers); the timeouts are read off the deadlines that a
+// session of each manager arms on a timed connection at virtual time 0.
+func mgrOptionsScenario() *mc.Scenario {
+	return &mc.Scenario{Name: "constructors/manager-timeouts-do-not-leak", PB: [2]int{0, 0}, FB: [2]int{-1, -1}, NoStateCache: true, ProcessState: true,
+		Main: func(w *mc.World) {
+			ck := &tclock{w: w}
+			vtime.NowFn = func() time.Time { return clockBase.Add(time.Duration(ck.now) * time.Second) }
+			type cfgT struct {
+				name   string
+				opts   []stcp.MOption
+				rd, wr int64
+			}
+			cfgs := []cfgT{
+				{"default", nil, 20, 8},
+				{"read=5s,write=2s", []stcp.MOption{stcp.WithReadTimeout(5 * time.Second), stcp.WithWriteTimeout(2 * time.Second)}, 5, 2},
+				{"read=7s", []stcp.MOption{stcp.WithReadTimeout(7 * time.Second)}, 7, 8},
+			}
+			probe := func(c cfgT, after string) {
+				h := &handler{w: w, exits: map[*stcp.Session]int{}, frames: map[*stcp.Session][]byte{}}
+				mgr := stcp.NewSessionMgr(h, c.opts...)
+				tc := &tconn{w: w, ck: ck}
+				s := stcp.NewSession(mgr, tc)
+				s.Start()
+				_ = s.Send([]byte("x"))
+				// wait until the receive loop is parked in Read and the byte has been written
+				vsync.BlockOn(func() bool { return tc.rBlocked && len(tc.peerGot) == 1 })
+				w.Touch()
+				if tc.rdl != c.rd || tc.wdl != c.wr {
+					w.Failf("a manager built with %s%s arms read/write deadlines %d s/%d s ahead, configured %d s/%d s", c.name, after, tc.rdl, tc.wdl, c.rd, c.wr)
+				}
+				s.Close()
+				vsync.BlockOn(func() bool { return h.exits[s] == 1 })
+			}
+			for _, a := range cfgs {
+				for _, b := range cfgs {
+					probe(a, "")
+					probe(b, " (after one built with "+a.name+")")
+				}
+			}
+			vsync.BlockOn(func() bool {
+				for _, t := range w.S.Threads() {
+					if t.Lib && !t.Finished() {
+						return false
+					}
+				}
+				return true
+			})
+		}}
+}
+
 func scenarios() []*mc.Scenario {
-	var scs []*mc.Scenario
+	scs := []*mc.Scenario{mgrOptionsScenario()}
 	// flush before local close
 	for k := 0; k <= 3; k++ {
 		scs = append(scs, sessScenario(sessProg{name: fmt.Sprintf("local-close-flush/sends=%d", k), sessions: 1, sends: []string{"ab", "c", "def"}[:k], localClose: true, flush: true, pb: [2]int{3, 4}}))
